@@ -206,10 +206,10 @@ def run(ctx):
     for defs, cfg in CORPUS:
         p = mk_prog(defs, cfg)
         for _ in sc.enumerate_schedules(lambda d: one_run(ctx, p, decisions=d, items=items, tag="corpus-exhaustive"),
-                                        ctx.n(40, 500)):
+                                        ctx.n(22, 500)):
             pass
         base.flush(ctx, items)
-    for i in range(ctx.n(45, 700)):
+    for i in range(ctx.n(24, 700)):
         wide = i % 3 == 2
         p = sc.gen_wide(rng, p_dup=0.6) if wide else sc.gen_program(rng, p_dup=0.8, p_limits=0.35, allow_ctx=False, p_same=0.2 if i % 2 else 0.0)
         for k in range(3 if wide else 2):
@@ -223,7 +223,7 @@ def run(ctx):
     flush_memo(ctx)
     # sequenced duplicates (the same call at increasing depth, under the same or another context, CSE-only or not): a later
     # duplicate meets its twin running, evaluating, resolved or finalized - and the same call node recorded under several contexts
-    for i in range(ctx.n(24, 500)):
+    for i in range(ctx.n(12, 500)):
         p = sc.gen_chain(rng, p_lazy=0.25, p_cse=0.5)
         for k in range(2):
             one_run(ctx, p, rng=random.Random(rng.random()), items=items, tag="chain", p_complete=rng.choice([0.3, 0.7, 0.95]))
